@@ -207,6 +207,8 @@ def sampled_cases(draw, cells):
     act = sorted(S.active_chars(ec))
     letters = list('HNFSTREL')
     atoms = act + [esc] * 2 + letters + ['a', 'Z', '7', ' ', u'é'] + [esc + l + esc for l in letters] + [esc + l for l in 'FE'] + ['E' + esc]
+    if draw(st.integers(0, 3)) == 0:
+        atoms = [a for a in atoms if esc not in a]        # escape-free text: the cases that may carry highlight ranges
     parts = draw(st.lists(st.sampled_from(atoms), min_size=1, max_size=20))
     x = ''.join(parts)[:60]
     hl = None
